@@ -23,7 +23,7 @@ class Quant:
         if hash_:
             # std::hash<PhQ::X<T>> instantiations live under std::hash and are not matched by the PhQ filter;
             # same TU, second filter, same node ids (ASLR off)
-            p2 = astload.dump(txt, wd, nm, filt='hash', tolerate=[])
+            p2 = astload.dump(txt, wd, nm, filt='has', tolerate=[])
             self.ast.load(p2)
             os.remove(p2)
         self.low = lower.Lowerer(self.ast)
